@@ -34,6 +34,8 @@ class Builder:
         self.G = G
         self.connections = {}      # index -> Obj(wl_connection)
         self.ifaces = {}
+        self.owners = {}           # (index, side) -> the wl_display / wl_client that owns the connection (one per connection, as in libwayland)
+        self.freed_owner_addrs = []   # addresses of owners whose connection was destroyed: malloc hands them out again
 
     def iface(self, name):
         G = self.G
@@ -61,7 +63,38 @@ class Builder:
         if old is not None:
             new.addr = old.addr
         self.connections[index] = new
+        self.forget_owner(index)      # its wl_display / wl_client went with it
         return new
+
+    def new_connection_elsewhere(self, index):
+        """the wl_connection was freed; the next connection of this slot lives at a fresh address (its owner may still get a
+        recycled one)"""
+        G = self.G
+        self.connections[index] = G.Obj(G.wl_connection, {'fd': G.Value(G.int_t, 5 + index), 'want_flush': G.Value(G.int_t, 0)})
+        self.forget_owner(index)
+        return self.connections[index]
+
+    def owner(self, index, side):
+        """the wl_display (client side) or wl_client (server side) behind connection `index`: one object for the connection's
+        whole life; a later connection's owner may sit at the address a destroyed one had"""
+        G = self.G
+        key = (index, side)
+        if key not in self.owners:
+            conn = self.connection(index)
+            if side == 'client':
+                o = G.Obj(G.wl_display, {'proxy': G.Value(G.wl_proxy, obj=G.Obj(G.wl_proxy, {'object': G.Value(G.wl_object, obj=self.wl_object('wl_display', 1)),
+                                                                                              'display': G.null(G.void.pointer())})),
+                                         'connection': G.ptr(conn)})
+            else:
+                o = G.Obj(G.wl_client, {'connection': G.ptr(conn), 'display': G.null(G.void.pointer())})
+            if self.freed_owner_addrs:
+                o.addr = self.freed_owner_addrs.pop()
+            self.owners[key] = o
+        return self.owners[key]
+
+    def forget_owner(self, index):
+        for key in [k for k in self.owners if k[0] == index]:
+            self.freed_owner_addrs.append(self.owners.pop(key).addr)
 
     def closure(self, spec, new_id_as_object):
         G = self.G
@@ -121,15 +154,13 @@ class Builder:
         if spec['side'] == 'client':
             clo = self.closure(spec, True)
             proxy_obj = None
-            disp = G.Obj(G.wl_display, {'proxy': G.Value(G.wl_proxy, obj=G.Obj(G.wl_proxy, {'object': G.Value(G.wl_object, obj=self.wl_object('wl_display', 1)),
-                                                                                                'display': G.null(G.void.pointer())})),
-                                        'connection': G.ptr(conn)})
+            disp = self.owner(spec['conn'], 'client')
             target = self.wl_object(spec['target_iface'], spec['sender_id'])
             parent = G.Frame('dispatch_event', {'display': G.ptr(disp), 'closure': clo})
             loc = spec.get('via', 'wl_closure_invoke')
             return loc, G.Frame(loc, {'closure': clo, 'target': G.ptr(target), 'flags': G.Value(G.uint32, 0)}, parent)
         clo = self.closure(spec, False)
-        client = G.Obj(G.wl_client, {'connection': G.ptr(conn), 'display': G.null(G.void.pointer())})
+        client = self.owner(spec['conn'], 'server')
         res = G.Obj(G.wl_resource, {'destroy': G.null(G.void.pointer()), 'link': G.null(G.void.pointer()), 'client': G.ptr(client)})
         target = self.wl_object(spec['target_iface'], spec['sender_id'], parent=res)
         res.data['object'] = G.Value(G.wl_object, obj=target)
